@@ -517,7 +517,9 @@ class Interstitial(object):
             for c, d in itertools.product(range(self.dim), repeat=2):
                 Dp[:, :, c, d] += np.tensordot(gamma_i, biasP_i[:, :, c, d], ((0), (0))) + \
                                   np.tensordot(biasP_i[:, :, c, d], gamma_i, ((0), (0)))
-            Dp += np.tensordot(np.tensordot(self.VV, gamma_v, ((3), (0))), dg, ((2), (0)))
+            # gamma . domega . gamma in the full site space: for a given strain component the field domega.gamma is not
+            # symmetry-equivariant, so it must not be projected onto the vector basis before the contraction
+            Dp += np.tensordot(gamma_i, np.tensordot(domega_ij, gamma_i, ((1), (0))), ((0), (0))).transpose(0, 3, 1, 2)
 
         for a, b, c, d in itertools.product(range(self.dim), repeat=4):
             if a == c:
